@@ -2,7 +2,7 @@
 """Bounded stand-in for C29 at the level of the built binary (labelled bounded; never counted as proved; the
 plumbing in apprun/wazero is proved by contracts, the vendored engine is assumed there): `wa run` on small
 generated programs whose package initialisation and main function each end in one of: return, exit(k) for
-several k, panic, trap (integer division by zero); plus a program that does not compile and a missing file.
+several k, panic, trap (integer division by zero); plus a program that does not compile, a missing file, and prebuilt .wasm/.wat modules under lower- and upper-case extensions.
 The exit status must be 0 for a normal end, k for exit(k) (the first exit wins), non-zero otherwise."""
 import itertools, json, os, shutil, subprocess, sys, tempfile
 tier = os.environ.get("VERIF_TIER", "quick")
@@ -33,6 +33,26 @@ def run():
         if not ok:
             return {"cases": cases, "counterexample": "COUNTEREXAMPLE init ends by %s, main ends by %s: exit status %d, want %s; program:\n%s\noutput:\n%s" % (
                 ie, me, r.returncode, want if want is not None else "non-zero", src, (r.stdout + r.stderr)[-800:])}, 1
+    # prebuilt modules: the same programs compiled first (wa build), then run from the .wasm and the .wat
+    # file, under lower-case and upper-case extensions
+    for me in (["return", "exit3", "panic", "trap"] if tier != "thorough" else list(ENDS)):
+        src = 'import "syscall/js"\n\nglobal zero: int = 0\nglobal _keep = js.ProcExit\n\nfunc div(a, b: int) => int {\n\treturn a / b\n}\n\nfunc main {\n\t%s\n}\n' % ENDS[me]
+        d = os.path.join(tmp, "pre_" + me)
+        os.makedirs(d)
+        open(os.path.join(d, "prog.wa"), "w").write(src)
+        b = subprocess.run([wa, "build", "-o", "prog.wasm", "prog.wa"], cwd=d, capture_output=True, text=True, timeout=120)
+        if b.returncode != 0 or not os.path.exists(os.path.join(d, "prog.wasm")) or not os.path.exists(os.path.join(d, "prog.wat")):
+            return {"cases": cases, "counterexample": "COUNTEREXAMPLE wa build of a program whose main ends by %s fails or leaves no prog.wasm/prog.wat: %s" % (me, (b.stdout + b.stderr)[-600:])}, 1
+        for srcname, runname in (("prog.wasm", "prog.wasm"), ("prog.wat", "prog.wat"), ("prog.wasm", "PROG.WASM"), ("prog.wat", "Prog.Wat")):
+            cases += 1
+            if runname != srcname:
+                shutil.copy(os.path.join(d, srcname), os.path.join(d, runname))
+            r = subprocess.run([wa, "run", runname], cwd=d, capture_output=True, text=True, timeout=120)
+            want = status(me)
+            ok = (r.returncode == want) if want is not None else (r.returncode != 0)
+            if not ok:
+                return {"cases": cases, "counterexample": "COUNTEREXAMPLE wa run %s (prebuilt from a program whose main ends by %s): exit status %d, want %s; output:\n%s" % (
+                    runname, me, r.returncode, want if want is not None else "non-zero", (r.stdout + r.stderr)[-800:])}, 1
     for name, content in (("bad.wa", "func main {\n\tx := \n}\n"), ("bad.wat", "(module (func $f (unknown)))"), (None, None)):
         cases += 1
         f = os.path.join(tmp, name or "missing.wa")
@@ -41,7 +61,7 @@ def run():
         r = subprocess.run([wa, "run", f], capture_output=True, text=True, timeout=120)
         if r.returncode == 0:
             return {"cases": cases, "counterexample": "COUNTEREXAMPLE wa run %s (does not compile / does not exist): exit status 0" % (name or "missing.wa")}, 1
-    return {"cases": cases, "bound": "init ending in %d ways x main ending in %d ways (return, exit 0/3/255, panic, trap), a .wa and a .wat that do not compile, a missing file" % (len(inits), len(mains))}, 0
+    return {"cases": cases, "bound": "init ending in %d ways x main ending in %d ways (return, exit 0/3/255, panic, trap), a .wa and a .wat that do not compile, a missing file; prebuilt .wasm/.wat modules (main ending by return, exit 3, panic, trap) run under lower- and upper-case extensions" % (len(inits), len(mains))}, 0
 try:
     info, rc = run()
 finally:
